@@ -290,7 +290,7 @@ def run(ctx):
                 ev.count(k)
         return f
 
-    ctx.campaign("main", gen.programs(cfg), oracle, max_examples=ctx.n(60, 8000))
+    ctx.campaign("main", gen.programs(cfg), oracle, max_examples=ctx.n(60, 640))
     # extend-merge focus: extend-heavy chains (row-wise extend directly followed by a window ordered by / partitioned by
     # what it assigned, window pairs), only the four plain-SQLite variants -> 4x cheaper per program
     mcfg = dict(cfg)
